@@ -799,7 +799,7 @@ def signbytes_check(tier, seed):
     try:
         vlib.copy_spec(work)
         harness = vlib.build_harness()
-        consts = configs.mk(Accts=S(['a1', 'a2']) if q else S(['a1', 'a2', 'a3']), Topics=S(['t1', 't2']) if q else S(['t1', 't2', 'tc']), Descs=S(['', 'x', ' x']), Mons=S(['', 'm', 'm ']), RecKeys=S(['', 'k1']), RecVals=S(['', 'v1']) if q else S(['', 'v1', 'v1\\t']),
+        consts = configs.mk(Accts=S(['a1', 'a2']) if q else S(['a1', 'a2', 'a3']), Topics=S(['t1', 't2']) if q else S(['t1', 't2', 'tc']), Descs=S(['', 'x', ' x']), Mons=S(['', 'm', 'm ']), RecKeys=S(['', 'k1']), RecVals=S(['', 'v1', 'v2']) if q else S(['', 'v1', 'v2', 'v1\\t']),
                             FeePayers=S(['none', 'a1', 'a2']), Dids=S(['d1', 'dc']), DocNames=S(['A1', 'A2', 'R1', 'R2']) if q else S(['A1', 'A2', 'B12', 'C1', 'D2', 'E1', 'U1', 'R1', 'R2', 'F12']), Keys=S(['k1']) if q else S(['k1', 'k2']),
                             VmNames=S(['v1']), Seqs=S([0]) if q else S([0, 1]), DenomIds=S(['n1', 'n2']), TokenIds=S(['i1', 'i2']), DNames=S(['x', 'y']),
                             Kinds=configs.AOL_KINDS | configs.DID_KINDS | configs.PN_KINDS)
@@ -817,9 +817,31 @@ def signbytes_check(tier, seed):
         vlib.write_cfg(cfg, 'SBSpec', consts, (), ['W_NoKnownCollision'])
         rc2, out2, _ = vlib.run_tlc(work, 'SignBytes.tla', 'sb.cfg', workers=4, heap='4g', timeout=1200)
         model_has_collisions = 'is violated' in out2
+        # two-message transactions: for every message type, neighbouring alphabet messages A, B (they differ in at least one field)
+        bytype = {}
+        for c in cases:
+            bytype.setdefault(c['m']['type'], []).append(c)
+        pairs = []
+        for ty, cs in sorted(bytype.items()):
+            step = max(1, len(cs) // (12 if q else 60))
+            for k in range(0, len(cs) - 1, step):
+                pairs.append(dict(id='p%d' % len(pairs), pair=[cs[k]['m'], cs[k + 1]['m']]))
+                if k + 7 < len(cs):
+                    pairs.append(dict(id='p%d' % len(pairs), pair=[cs[k]['m'], cs[k + 7]['m']]))
+            # ... and pairs that differ in exactly one field by values of EQUAL length (same-size encodings: whatever is keyed or pooled by size confuses them)
+            found = 0
+            for ai, a in enumerate(cs):
+                for b in cs[ai + 1:]:
+                    diff = [f for f in a['m'] if a['m'][f] != b['m'].get(f)]
+                    if len(diff) == 1 and isinstance(a['m'][diff[0]], str) and len(a['m'][diff[0]]) == len(b['m'][diff[0]]) > 0:
+                        pairs.append(dict(id='p%d' % len(pairs), pair=[a['m'], b['m']]))
+                        found += 1
+                        break
+                if found >= (6 if q else 40):
+                    break
         cf_in = os.path.join(work, 'sb-cases.ndjson')
         with open(cf_in, 'w') as f:
-            for c in cases:
+            for c in cases + pairs:
                 f.write(json.dumps(c) + '\n')
         obs = []
         for k in (0, 1):
@@ -828,10 +850,14 @@ def signbytes_check(tier, seed):
             if p.returncode != 0:
                 raise Inconclusive('harness signbytes failed: ' + p.stderr[-2000:])
             obs.append(open(of).read())
-        recs = [json.loads(l) for l in obs[0].splitlines()]
+        allrecs = [json.loads(l) for l in obs[0].splitlines()]
+        recs = [r for r in allrecs if r['ev'] == 'case']
+        pair_recs = [r for r in allrecs if r['ev'] == 'pair']
         tf = os.path.join(work, 'sb-trace.ndjson')
         with open(tf, 'w') as f:
             f.write(json.dumps(dict(ev='xproc', equal=obs[0] == obs[1], id='xproc', i=0)) + '\n')
+            for r in pair_recs:
+                f.write(json.dumps(r) + '\n')
             for by in ('direct', 'aux', 'amino', 'akey'):
                 f.write(json.dumps(dict(ev='section', by=by)) + '\n')
                 for r in sorted(recs, key=lambda r: (r[by], r['i'])):
